@@ -622,6 +622,10 @@ func (vc *VC) strLit(s string) string {
 	// and distinct from every symbolic string that is constrained to be a literal.
 	vc.emit(fmt.Sprintf("(define-fun %s () Int (- %d)) ; %q", name, id, s))
 	vc.emit(fmt.Sprintf("(assert (= (slen %s) %d))", name, len(s)))
+	if s == "" {
+		// string ids stand for string contents: the empty string is the only one of length 0
+		vc.emit(fmt.Sprintf("(assert (forall ((x Int)) (! (=> (= (slen x) 0) (= x %s)) :pattern ((slen x)))))", name))
+	}
 	vc.setShape(name, shLit(s))
 	return name
 }
